@@ -282,6 +282,7 @@ def register(gen, T):
         casting = T.src("typer/src/casting.rs")
         ir_expr = T.src("ir/src/ir_expressions.rs")
         structs = T.src("typer/src/typer/structs.rs")
+        ir_functions = T.src("ir/src/ir_functions.rs")
 
         def squash(text):
             return re.sub(r'\s+', '', text)
@@ -312,6 +313,7 @@ def register(gen, T):
         psi = squash(fn_body(structs, "parse_struct_internal"))
         bftb = squash(fn_body(scopes, "build_function_template_body"))
         est = squash(fn_body(scopes, "ensure_struct_template"))
+        fin = squash(fn_body(ir_functions, "find_instantiation"))
         E = re.escape
         facts = [
             # ---- find_function_type
@@ -420,6 +422,12 @@ def register(gen, T):
                "letsid_res=self.instantiate_struct_template(id,ast,template_args,error_loc);"
                "self.current_scope=current_scope;letsid=sid_res?;") + ".*?" +
              E("struct_template_data.instantiations.insert(template_args.to_vec(),sid);")),
+            ("instantiationIsFoundAgainByTemplateAndAllArguments", fin,
+             E("ifletSome(instantiation_data)=self.get_template_instantiation_data(other_id)"
+               "&&instantiation_data.parent_id==id&&instantiation_data.template_args==template_args{returnSome(other_id);}")),
+            ("instantiationIsLookedUpBeforeItIsBuilt", bfts,
+             "^" + E("lettemplate_args_no_loc=template_args.iter().map(|t|t.node.clone()).collect::<Vec<_>>();"
+                     "ifletSome(id)=self.module.function_registry.find_instantiation(id,&template_args_no_loc){returnSome(id);}")),
             # ---- who hands over which overload list
             ("innermostScopeWithTheNameWins", fid,
              E("ifletSome(ve)=self.find_identifier_in_scope(scope,leaf_name){returnOk(ve);}}"
@@ -436,7 +444,8 @@ def register(gen, T):
         ]
         out = [T.header("ResolveShape", ["typer/src/typer/expressions.rs", "typer/src/typer/scopes.rs",
                                          "typer/src/typer/types.rs", "typer/src/typer/functions.rs",
-                                         "typer/src/casting.rs", "ir/src/ir_expressions.rs"])]
+                                         "typer/src/typer/structs.rs", "typer/src/casting.rs", "ir/src/ir_expressions.rs",
+                                         "ir/src/ir_functions.rs"])]
         out.append("/-- syntactic facts about the resolution routines (each a regular expression over the comment- and\n"
                    "    white-space-free source); `false` = the source no longer has the shape the model transcribes -/\n")
         out.append("structure Shape where\n" + "".join(f"  {k} : Bool\n" for k, _, _ in facts) + "  deriving DecidableEq, Repr\n\n")
